@@ -322,6 +322,11 @@ def check(ctx):
     if len(ctx.findings) == before:
         ctx.holds('R3', 'Dataset.__setitem__: copy.copy(val) + deepcopy(val.axes)')
     rule_site(ctx, E)
+    # reshape() renames axes of a private working copy (SITE_DECIDED in sa/effects.py): the structural rule of C11 is re-run here
+    from . import c11
+    from ..report import Renamed
+    ctx.rule('R5', 'reshape renames private copies of the axes only (site decided structurally, shared with C11)', 1)
+    c11.rule_reshape(Renamed(ctx, {'*': 'R5'}))
     ctx.not_decided += ['writes hidden in user-supplied callables (apply, sort_axis(key=))', 'sharing of mutable metadata *values* between operand and result (not a write)',
                         'netCDF4 / pandas / matplotlib calls (absent; treated as external)']
     ctx.trusted += ['frozen effect tables for builtin containers and NumPy (views vs copies, in-place methods) in sa/effects.py',
